@@ -136,6 +136,9 @@ func BlockToProto(block *hotstuff.Block) *Block {
 
 // BlockFromProto converts a Block to a hotstuff.Block.
 func BlockFromProto(block *Block) *hotstuff.Block {
+	if block == nil {
+		return nil
+	}
 	var p hotstuff.Hash
 	copy(p[:], block.GetParent())
 
